@@ -31,7 +31,7 @@ PROPS = {
     "C04": dict(streams=[diff("agg", 3000, 40000), diff("kagg", 300, 5000), diff("aggparam", 400, 6000), orc("kernel", "kernel", 2000, 40000)], rule=RULE, trusted_base=COMMON_TB),
     "C05": dict(streams=[diff("binary", 3000, 40000), orc("kernel", "kernel", 2000, 40000)], rule=RULE, trusted_base=COMMON_TB),
     "C06": dict(streams=[diff("func", 3000, 40000), diff("late", 300, 5000), diff("twins", 400, 6000), diff("hist", 400, 6000)], rule=RULE, trusted_base=COMMON_TB),
-    "C07": dict(streams=[orc("rangeinst", "mixed", 400, 6000), orc("rangeinst", "twins", 400, 6000), orc("rangeinst", "rangefn", 200, 3000), orc("rangeinst", "func", 300, 4000)], rule=RULE, trusted_base=COMMON_TB),
+    "C07": dict(streams=[orc("rangeinst", "mixed", 400, 6000), orc("rangeinst", "twins", 400, 6000), orc("rangeinst", "late", 250, 4000), orc("rangeinst", "rangefn", 200, 3000), orc("rangeinst", "func", 300, 4000)], rule=RULE, trusted_base=COMMON_TB),
     "C08": dict(streams=[orc("fallback", "fallback", 0, 0)], rule="exhaustive enumeration: every function of parser.Functions (full and minimal arity), every aggregation and binary/set operator and modifier, subqueries, string literals, range vectors, each in every syntactic position x instant/range x fallback on/off", trusted_base=COMMON_TB, exhaustive=True),
     "C09": dict(streams=[orc("opt", "optx", 1500, 30000), orc("opt", "mixed", 300, 6000), orc("opt", "twins", 300, 4000)], rule=RULE + "; optx = selectors of <=2 matchers over the 2-key x 4-type x 3-value alphabet (incl. repeated keys) in 18 positional templates over a dataset with every label-presence combination", trusted_base=COMMON_TB),
     "C10": dict(streams=[orc("dist", "dist", 600, 12000), orc("dist", "dnest", 150, 3000), orc("dist", "dfunc", 900, 3600), orc("dist", "aggparam", 600, 6000), orc("distplan", "dfunc", 1800, 3600), orc("distplan", "dist", 400, 8000), orc("distplan", "dnest", 150, 3000), orc("distplan", "mixed", 400, 8000), orc("distplan", "func", 200, 4000)], rule=RULE + "; random assignment of the series to 1..4 remote engines incl. empty partitions; dnest = the same aggregation nested with groups split across engines; distplan = the real DistributedExecutionOptimizer's plan against the Lean model of its traversal, by plan shape; dfunc = every function of the parser's table with arguments of the declared types in twelve positions", trusted_base=COMMON_TB),
